@@ -2,6 +2,7 @@ import Oracle.StreamEngine
 import Oracle.CodecEngine
 import Oracle.HandshakeEngine
 import Oracle.CacheEngine
+import Oracle.DispatchEngine
 import Oracle.ClaimEngine
 import Oracle.FsPathEngine
 
@@ -11,6 +12,7 @@ def main (args : List String) : IO UInt32 := do
   | ["codec"] => Oracle.CodecEngine.run; return 0
   | ["hs"] => Oracle.HandshakeEngine.run; return 0
   | ["sc"] => Oracle.CacheEngine.run; return 0
+  | ["dispatch"] => Oracle.DispatchEngine.run; return 0
   | ["claim"] => Oracle.ClaimEngine.run; return 0
   | ["fspath"] => Oracle.FsPathEngine.run; return 0
   | _ =>
